@@ -167,6 +167,33 @@ def build(P):
                                   meta=dict(oob=True, units=["oob" + repr(dims) + repr(cell)])))
         for ch in chunks(progs, 500):
             yield ("exhaustive-shapes", ch)
+        # whole-array assignment: every (element type, element type) pair incl. user types of the same kind, equal and different bounds, 1 and 2 dimensions;
+        # the copy carries every cell (all cells distinct), source and destination stay independent
+        ETY = {"INTEGER": ["1", "2", "3", "4", "5", "6"], "REAL": ["1.5", "2.5", "3.5", "4.5", "5.5", "6.5"], "STRING": ['"a"', '"b"', '"c"', '"d"', '"e"', '"f"'], "CHAR": ["'a'", "'b'", "'c'", "'d'", "'e'", "'f'"],
+               "BOOLEAN": ["TRUE", "FALSE", "TRUE", "TRUE", "FALSE", "FALSE"], "DATE": ["1/1/2001", "2/1/2001", "3/1/2001", "4/1/2001", "5/1/2001", "6/1/2001"],
+               "Colour": ["Red", "Green", "Blue", "Green", "Red", "Blue"], "Size": ["Large", "Small", "Medium", "Small", "Large", "Medium"], "RecA": None, "RecB": None, "PA": None, "PB": None}
+        PRE = ["TYPE Colour = (Red, Green, Blue)", "TYPE Size = (Small, Medium, Large)", "TYPE RecA\nDECLARE f : INTEGER\nENDTYPE", "TYPE RecB\nDECLARE f : INTEGER\nENDTYPE", "TYPE PA = ^INTEGER", "TYPE PB = ^INTEGER", "DECLARE tgt1, tgt2 : INTEGER"]
+        def setcell(ref, ty, k):
+            if ty in ("RecA", "RecB"): return "%s.f <- %d" % (ref, 10 + k)
+            if ty in ("PA", "PB"): return "%s <- ^tgt%d" % (ref, 1 + k % 2)
+            return "%s <- %s" % (ref, ETY[ty][k % 6])
+        def showcell(ref, ty):
+            if ty in ("RecA", "RecB"): return ref + ".f"
+            if ty in ("PA", "PB"): return ref + "^"
+            return ref
+        am = []
+        for bounds, cells in [("1:3", ["1", "2", "3"]), ("1:2, 0:2", ["1, 0", "1, 1", "1, 2", "2, 0", "2, 1", "2, 2"]), ("0:1, 1:1, 1:3", ["0, 1, 1", "0, 1, 2", "0, 1, 3", "1, 1, 1", "1, 1, 2", "1, 1, 3"])]:
+            for ta in ETY:
+                for tb in ETY:
+                    if ta != tb and bounds != "1:3" and not (ta in ("Colour", "RecA", "PA") and tb in ("Size", "RecB", "PB")): continue
+                    L = list(PRE) + ["tgt1 <- 71", "tgt2 <- 72", "DECLARE a : ARRAY[%s] OF %s" % (bounds, ta), "DECLARE b : ARRAY[%s] OF %s" % (bounds, tb)]
+                    L += [setcell("a[%s]" % c, ta, k) for k, c in enumerate(cells)] + ["OUTPUT \"before\"", "b <- a", "OUTPUT \"copied\""]
+                    L += ["OUTPUT " + ", \" \", ".join(showcell("b[%s]" % c, tb) for c in cells)]
+                    L += [setcell("a[%s]" % cells[-1], ta, 0), setcell("b[%s]" % cells[0], tb, 4), "OUTPUT " + ", \" \", ".join([showcell("a[%s]" % c, ta) for c in cells] + [showcell("b[%s]" % c, tb) for c in cells])]
+                    am.append("\n".join(L))
+        for dst, src in [("1:3", "0:2"), ("1:3", "1:4"), ("1:2, 1:3", "1:3, 1:2"), ("1:6", "1:2, 1:3"), ("1:2, 1:3", "1:2, 1:4"), ("0:1, 1:3", "1:2, 1:3")]:
+            am.append("\n".join(["DECLARE a : ARRAY[%s] OF INTEGER" % src, "DECLARE b : ARRAY[%s] OF INTEGER" % dst, "OUTPUT \"before\"", "b <- a", "OUTPUT \"not reached\""]))
+        yield ("array-assign-matrix", [Case(id="C06-aa-%d" % i, prog=(sp + "\n").encode(), meta=dict(units=["aa/%d" % i])) for i, sp in enumerate(am)])
         shapes = [
             "DECLARE a : ARRAY[1:3] OF INTEGER\nOUTPUT a[1.0]", "DECLARE a : ARRAY[1:3] OF INTEGER\nOUTPUT a[\"1\"]", "DECLARE a : ARRAY[1:3] OF INTEGER\nOUTPUT a[1, 1]",
             "DECLARE a : ARRAY[1:3, 1:2] OF INTEGER\nOUTPUT a[1]", "DECLARE a : ARRAY[1:3] OF INTEGER\nOUTPUT a", "DECLARE a : ARRAY[1:3] OF INTEGER\na <- 5", "x <- 5\nOUTPUT x[1]",
@@ -296,6 +323,25 @@ def build(P):
                     L += ["TYPE Wrap", "DECLARE items : ARRAY[1:3] OF %s" % top, "DECLARE tag : INTEGER", "ENDTYPE", "DECLARE w : Wrap", "w.items[1] <- a", "k <- 3", "WHILE k >= 2 DO", "w.items[k] <- w.items[1]"] + fill("w.items[k]", 90) + ["k <- k - 1", "ENDWHILE", "FOR j <- 1 TO 3"] + dump("w.items[j]", "dynf ") + ["NEXT j", "b <- w.items[1]"]
                 L += dump("b", "copied ") + fill("a", 20) + dump("b", "after-src-change ") + fill("b", 40) + dump("a", "after-dst-change ")
                 progs.append(Case(id="C07-%d-%s" % (i, chan), prog=("\n".join(L) + "\n").encode(), meta=dict(units=["%d/%s" % (i, chan)], features=["rec_copy"])))
+        # records whose array fields have two and three dimensions (all cells distinct), through every copy channel
+        for nd, (bounds, cells) in enumerate([("1:2, 1:3", ["1, 1", "1, 2", "1, 3", "2, 1", "2, 2", "2, 3"]), ("0:1, 1:2, 1:2", ["0, 1, 1", "0, 1, 2", "0, 2, 1", "0, 2, 2", "1, 1, 1", "1, 1, 2", "1, 2, 1", "1, 2, 2"]), ("1:3", ["1", "2", "3"])]):
+            for et in ["INTEGER", "STRING"]:
+                tl = ["TYPE Grid", "DECLARE tag : INTEGER", "DECLARE g : ARRAY[%s] OF %s" % (bounds, et), "DECLARE h : ARRAY[%s] OF %s" % (bounds, et), "ENDTYPE"]
+                def fillg(v, base):
+                    return ["%s.tag <- %d" % (v, base)] + ["%s.%s[%s] <- %s" % (v, fld, c, VAL[et](base + k + (50 if fld == "h" else 0))) for fld in ("g", "h") for k, c in enumerate(cells)]
+                def dumpg(v, tag):
+                    return ["OUTPUT \"%s \", %s.tag, \" \", %s" % (tag, v, ", \" \", ".join("%s.%s[%s]" % (v, fld, c) for fld in ("g", "h") for c in cells))]
+                for chan in ["assign", "byval", "return", "array", "field", "newvar", "arrfield"]:
+                    L = tl + ["DECLARE a, b : Grid"] + fillg("a", 100)
+                    if chan == "assign": L += ["b <- a"]
+                    elif chan == "byval": L += ["PROCEDURE P(x : Grid)"] + dumpg("x", "in") + fillg("x", 300) + ["ENDPROCEDURE", "CALL P(a)", "b <- a"]
+                    elif chan == "return": L += ["FUNCTION F() RETURNS Grid", "RETURN a", "ENDFUNCTION", "b <- F()"]
+                    elif chan == "array": L += ["DECLARE arr, arr2 : ARRAY[1:2, 1:2] OF Grid", "arr[2, 1] <- a", "arr2 <- arr", "b <- arr2[2, 1]"] + dumpg("arr2[1, 2]", "untouched")
+                    elif chan == "field": L += ["TYPE Wrap", "DECLARE inner : Grid", "ENDTYPE", "DECLARE w, w2 : Wrap", "w.inner <- a", "w2 <- w", "b <- w2.inner"]
+                    elif chan == "newvar": L += ["c <- a"] + fillg("a", 400) + dumpg("c", "c") + ["b <- c"]
+                    elif chan == "arrfield": L += ["b.g <- a.h", "b.h <- a.g", "b.tag <- a.tag"]
+                    L += dumpg("b", "copied") + fillg("a", 500) + dumpg("b", "after-src-change") + fillg("b", 600) + dumpg("a", "after-dst-change")
+                    progs.append(Case(id="C07-grid-%d-%s-%s" % (nd, et, chan), prog=("\n".join(L) + "\n").encode(), meta=dict(units=["grid/%d/%s/%s" % (nd, et, chan)], features=["rec_copy"])))
         for ch in chunks(progs, 400):
             yield ("copy-channels", ch)
         shapes = ["TYPE R\nDECLARE f : INTEGER\nENDTYPE\nDECLARE r : R\ng <- 42\nOUTPUT r.g", "TYPE R\nDECLARE f : INTEGER\nENDTYPE\nDECLARE r : R\nr.g <- 1",
